@@ -43,6 +43,7 @@ Init(cfg) ==
      cause |-> [c |-> EmptyMap, s |-> EmptyMap],
      connCause |-> [c |-> {}, s |-> {}],
      faulted |-> [c |-> FALSE, s |-> FALSE],
+     panicked |-> [c |-> FALSE, s |-> FALSE],
      v |-> <<>>, hits |-> EmptyMap]
 
 Viol(a, rule, l, ep, sid, info) ==
@@ -206,11 +207,11 @@ FinalQ(a, e, l, ws) ==
         unblocked == ~e.wblocked["c"] /\ ~e.wblocked["s"]
         clean == \A ep \in DOMAIN ws : ~ws[ep].tainted
         \* C06: cooperating peer, nothing may be left pending
-        a1 == IF a.coop /\ bothAlive /\ unblocked /\ clean
+        a1 == IF a.coop /\ bothAlive /\ unblocked /\ clean /\ ~a.panicked["c"] /\ ~a.panicked["s"]
               THEN Check(a, "C06.progress", Len(e.out) = 0, l, "", 0, e.out)
               ELSE a
         \* C07: an ended connection leaves nothing pending on its endpoint
-        endedEps == {ep \in DOMAIN ws : e.conn[ep] = "done"}
+        endedEps == {ep \in DOMAIN ws : e.conn[ep] = "done" /\ ~a.panicked[ep]}
         hang == {j \in 1..Len(e.out) : e.out[j].ep \in endedEps}
         a2 == IF endedEps # {}
               THEN Check(a1, "C07.resolved", hang = {}, l, "", 0, [j \in hang |-> e.out[j]])
@@ -241,5 +242,13 @@ Step(a, e, l, ws) ==
     ELSE IF e.t = "census_begin" THEN [a EXCEPT !.censusOn = TRUE, !.censusSum = [c |-> 0, s |-> 0]]
     ELSE IF e.t = "census_end" THEN CensusEnd(a, l, ws)
     ELSE IF e.t = "qf" THEN FinalQ(a, e, l, ws)
+    \* C08: the endpoint never panics, never spins
+    ELSE IF e.t = "panic"
+    THEN [Viol(Hit(a, "C08.panic"), "C08.panic", l, e.ep, 0, e.msg) EXCEPT !.panicked[e.ep] = TRUE]
+    ELSE IF e.t = "budget" /\ e.kind = "selfwake"
+    THEN Viol(Hit(a, "C08.busy_loop"), "C08.busy_loop", l, e.ep, 0, e.task)
+    \* C19: h2's own debug assertion that the stream store is empty when it is dropped
+    ELSE IF e.t = "drop_panic"
+    THEN Viol(Hit(a, "C19.store_not_empty_at_drop"), "C19.store_not_empty_at_drop", l, "", 0, e.msg)
     ELSE a
 =============================================================================
